@@ -142,6 +142,15 @@ func (e *engine) layerFor(fn *ssa.Function, prop string) string {
 	if ct := e.w.db.Contracts[fn.String()]; ct != nil && ct.hasLayer(prop) {
 		return prop
 	}
+	// a clause labelled for this property but stated in another property's layer (it needs that layer's
+	// preconditions and lemmas): the function is verified in that layer and the clause attributed by its label
+	if ct := e.w.db.Contracts[fn.String()]; ct != nil {
+		for _, cl := range ct.Clauses {
+			if cl.Layer != "" && cl.Layer != prop && strings.HasPrefix(cl.Label, prop+".") {
+				return cl.Layer
+			}
+		}
+	}
 	for _, ct := range e.w.ifaceContractsFor(fn) {
 		if ct.hasLayer(prop) {
 			return prop
